@@ -47,6 +47,9 @@ CLAIMS = {
  "C05": ("exploration", "lifecycle monitor in an instrumented backend (Close count, use after Close, Close during a call) + Handle-return / goroutine-leak / path-tree-reference checks, over cut points, in-flight disconnects, clunk races and cross-connection teardown races with gates",
          "PRNG sessions ended by disconnect with fids bound; scripted sessions replayed truncated at every frame boundary +-1 and every 7th byte (thorough: every byte) followed by EOF; 1-8 requests parked in the backend when the connection is cut, released in every order (handler exits must precede teardown Close and Handle's return on the logical clock); clunk/remove/fid-replacement racing a parked operation on the same fid; a connection ending while another is parked in RenameAt/Renamed/UnlinkAt for entries it holds; a rename notifying files while a dying connection is parked inside their Close. After all connections ended: every handle closed exactly once, nothing called after Close began, no Close during a call, Handle returned (quiescence decides), no p9 goroutine left, zero references left in the server's path tree.",
          "Backend errors at every call index are covered by C15's lifecycle accounting; schedules not forced by gates are sampled.", "DESIGN.md section 3 C05"),
+ "C11": ("exploration", "chunk-log oracle: the backend's per-chunk (length, offset) log and the client's (n, err, bytes) replayed against a byte-slice model under scripted short counts and errors",
+         "Real client and server over a backend file whose content is a function of the offset; grid of 10 msize values (from the smallest accepted) x buffer lengths around multiples of the observed chunk size x offsets (0, EOF+-1, 2^32+-1, 2^40) x file sizes on both sides of off+len x a fault (error, 0, 1 or L-1 bytes) on each of the first chunks. Chunks must be in order, contiguous, within msize-11 / msize-23, none after the first short or failed chunk, none missing; returned count = sum of chunk counts; the failed chunk's errno is what the caller sees; io.EOF only if n < len(p) and always if n == 0 < len(p); bytes equal the file; stored bytes equal p[:n].",
+         "memfs call log is what the server forwarded; writes are content-checked below 1 MiB offsets, by chunk arguments above.", "DESIGN.md section 3 C11"),
 }
 
 PENDING = "check under construction in this round (DESIGN.md section 3); will be claimed once its monitor is committed and silent on the repaired tree"
